@@ -32,7 +32,21 @@ def replay(rec, ctx):
     from cherab.core.model import BeamCXLine, BeamEmissionLine
     rates = dict((ctx or rec)["rates"], bcx_zero=rec.get("bcx_zero", 0))
     calls = EC.Calls()
-    ad = EC.provider(rates, calls)
+    nu0 = EC.nu(rec)
+    efac0 = {s: f[0] / f[1] for s, f in rec.get("efac", {}).items()}
+
+    def expect(tag):
+        if not rec.get("zeff") or not rec["zeff"][1]:
+            return None
+        z2n_, zn_ = rec["zeff"]
+        if tag == "bcx":
+            return (ENERGY * efac0.get("c6", 1.0), float(rec["temp"]["c6"]), rec["nion"] * nu0, z2n_ / zn_, 5.0)
+        if tag.startswith(("bmp:", "bes:")):
+            s_ = tag.split(":")[1]
+            zi_ = rec["species"][s_][1]
+            return (ENERGY * efac0.get(s_, 1.0), (z2n_ * nu0 / zi_) if zi_ else math.inf, float(rec["temp"][s_]))
+        return None
+    ad = EC.provider(rates, calls, expect)
     from scipy import constants as K
     vb = math.sqrt(2 * ENERGY * K.e / K.atomic_mass)
     from raysect.core import rotate_y, rotate_z, AffineMatrix3D
@@ -97,7 +111,16 @@ def replay(rec, ctx):
     if not core.close(integral, want, rtol=1e-9, atol=1e-300):
         kind = "nonzero-where-zero-expected" if want == 0 else ("zero-where-emission-expected" if integral == 0 else "total-differs")
         bad(kind, f"integrated emission {integral!r}, spec {num}/{den} x scale / 4pi = {want!r}")
-    # (T) arguments of the coefficient evaluations
+    # (T) arguments of the coefficient evaluations (the mock coefficients answer correctly only at the documented arguments, so
+    # a mix-up shows in the total above; the recorded calls name the reason, and are observations when the total is right)
+    wrong_total = bool(viol)
+    strict_bad = bad
+
+    def bad(what, detail):      # noqa: F811
+        if wrong_total:
+            strict_bad(what, detail)
+        else:
+            viol.append({"observation": f"{m}:{what}"})
     if want:
         z2n, zn = rec["zeff"]
         for tag, args in [(x[1], x[2]) for x in calls if x[0] == "eval"]:
